@@ -87,6 +87,9 @@ Proof.
   rewrite Hnil in Hin. destruct Hin.
 Qed.
 
+Section F.
+Variable f : obj -> obj.
+
 (* ---------- copying one bucket ---------- *)
 Lemma bput_ver d k o : b_ver (bput d k o) = b_ver d.
 Proof. reflexivity. Qed.
@@ -96,13 +99,13 @@ Lemma stack_bput_neq d k k' o : k' <> k -> stack (bput d k o) k' = stack d k'.
 Proof. intros H. unfold stack, bput. cbn. now rewrite aget_aset_neq. Qed.
 
 Definition put_list (l : list (N * obj)) (d : bucket) : bucket :=
-  fold_left (fun d p => bput d (fst p) (mig_obj (snd p))) l d.
+  fold_left (fun d p => bput d (fst p) (f (snd p))) l d.
 Lemma put_list_ver l : forall d, b_ver (put_list l d) = b_ver d.
 Proof. induction l as [|[k o] r IH]; cbn; intros d; auto. unfold put_list in IH. now rewrite IH. Qed.
 Lemma put_list_stack l : NoDup (map fst l) -> forall d k,
   stack (put_list l d) k =
   match aget k l with
-  | Some o => if b_ver d then VObj (mig_obj o) :: stack d k else [VObj (mig_obj o)]
+  | Some o => if b_ver d then VObj (f o) :: stack d k else [VObj (f o)]
   | None => stack d k
   end.
 Proof.
@@ -113,28 +116,30 @@ Proof.
   - assert (k <> k1) by (intros ->; now rewrite N.eqb_refl in E).
     cbn. rewrite stack_bput_neq by auto. reflexivity.
 Qed.
-Lemma copy_all_ver sb db : b_ver (copy_all sb db) = b_ver db.
+Lemma copy_all_ver sb db : b_ver (copy_all_f f sb db) = b_ver db.
 Proof. apply put_list_ver. Qed.
 Lemma copy_all_cur sb db k o :
-  NoDup (map fst (b_keys sb)) -> cur sb k = Some o -> cur (copy_all sb db) k = Some (mig_obj o).
+  NoDup (map fst (b_keys sb)) -> cur sb k = Some o -> cur (copy_all_f f sb db) k = Some (f o).
 Proof.
-  intros Hnd Hc. unfold cur, copy_all. fold (put_list (cur_objs sb) db).
+  intros Hnd Hc. unfold cur, copy_all_f. fold (put_list (cur_objs sb) db).
   rewrite (put_list_stack _ (cur_objs_NoDup _ Hnd)). rewrite (cur_objs_aget _ _ Hnd), Hc.
   destruct (b_ver db); reflexivity.
 Qed.
 Lemma copy_all_suffix sb db k :
   NoDup (map fst (b_keys sb)) ->
   (b_ver db = false -> stack db k = []) ->
-  exists pre, stack (copy_all sb db) k = pre ++ stack db k.
+  exists pre, stack (copy_all_f f sb db) k = pre ++ stack db k.
 Proof.
-  intros Hnd Hun. unfold copy_all. fold (put_list (cur_objs sb) db).
+  intros Hnd Hun. unfold copy_all_f. fold (put_list (cur_objs sb) db).
   rewrite (put_list_stack _ (cur_objs_NoDup _ Hnd)).
   destruct (aget k (cur_objs sb)) as [o|].
   - destruct (b_ver db) eqn:V.
-    + now exists [VObj (mig_obj o)].
-    + rewrite (Hun eq_refl). exists [VObj (mig_obj o)]. now rewrite app_nil_r.
+    + now exists [VObj (f o)].
+    + rewrite (Hun eq_refl). exists [VObj (f o)]. now rewrite app_nil_r.
   - now exists [].
 Qed.
+
+End F.
 
 (* ---------- create_missing ---------- *)
 Lemma create_missing_aget names : forall dst n,
@@ -172,19 +177,22 @@ Proof.
   destruct (existsb _ _); [|discriminate]. intros H. inversion H. now right.
 Qed.
 
+Section F2.
+Variable f : obj -> obj.
+
 (* ---------- the bucket loop ---------- *)
 Lemma mig_buckets_ok bs : NoDup (map fst bs) -> forall dstc,
   (forall n sb, In (n, sb) bs -> exists db, aget n dstc = Some db /\ cur_objs db = []) ->
-  snd (mig_buckets bs dstc) = MOk /\
-  (forall n sb, In (n, sb) bs -> exists db, aget n dstc = Some db /\ aget n (fst (mig_buckets bs dstc)) = Some (copy_all sb db)) /\
-  (forall n, ~ In n (map fst bs) -> aget n (fst (mig_buckets bs dstc)) = aget n dstc).
+  snd (mig_buckets_f f bs dstc) = MOk /\
+  (forall n sb, In (n, sb) bs -> exists db, aget n dstc = Some db /\ aget n (fst (mig_buckets_f f bs dstc)) = Some (copy_all_f f sb db)) /\
+  (forall n, ~ In n (map fst bs) -> aget n (fst (mig_buckets_f f bs dstc)) = aget n dstc).
 Proof.
   induction bs as [|[n sb] rest IH]; intros Hnd dstc Hall.
   - cbn. repeat split; auto. intros ? ? [].
   - cbn in Hnd. inversion Hnd as [|? ? Hni Hnd']. subst.
     destruct (Hall n sb (or_introl eq_refl)) as [db [Hg He]].
-    cbn [mig_buckets]. rewrite Hg, He. cbn [is_nil].
-    set (dst1 := aset n (copy_all sb db) dstc).
+    cbn [mig_buckets_f]. rewrite Hg, He. cbn [is_nil].
+    set (dst1 := aset n (copy_all_f f sb db) dstc).
     assert (Hall1 : forall n' sb', In (n', sb') rest -> exists db', aget n' dst1 = Some db' /\ cur_objs db' = []).
     { intros n' sb' Hin. destruct (Hall n' sb' (or_intror Hin)) as [db' [Hg' He']].
       exists db'. split; auto. unfold dst1. rewrite aget_aset_neq; auto.
@@ -207,11 +215,11 @@ Lemma mig_buckets_notempty bs : forall dstc n db,
   (forall n', In n' (map fst bs) -> exists db', aget n' dstc = Some db') ->
   In n (map fst bs) -> aget n dstc = Some db -> cur_objs db <> [] ->
   NoDup (map fst bs) ->
-  snd (mig_buckets bs dstc) = MNotEmpty.
+  snd (mig_buckets_f f bs dstc) = MNotEmpty.
 Proof.
   induction bs as [|[n1 sb1] rest IH]; intros dstc n db Hex Hin Hg Hne Hnd; [destruct Hin|].
   cbn in Hnd. inversion Hnd as [|? ? Hni Hnd']. subst.
-  cbn [mig_buckets]. destruct (Hex n1 (or_introl eq_refl)) as [db1 Hg1]. rewrite Hg1.
+  cbn [mig_buckets_f]. destruct (Hex n1 (or_introl eq_refl)) as [db1 Hg1]. rewrite Hg1.
   destruct (is_nil (cur_objs db1)) eqn:En; [|reflexivity].
   destruct Hin as [Heq|Hin].
   - cbn in Heq. subst n1. rewrite Hg in Hg1. inversion Hg1. subst db1.
@@ -232,19 +240,19 @@ Lemma mig_buckets_suffix bs : NoDup (map fst bs) ->
   forall dstc,
   (forall n db, In n (map fst bs) -> aget n dstc = Some db -> tops_ok db) ->
   forall n db, aget n dstc = Some db ->
-  exists db', aget n (fst (mig_buckets bs dstc)) = Some db' /\ b_ver db' = b_ver db /\
+  exists db', aget n (fst (mig_buckets_f f bs dstc)) = Some db' /\ b_ver db' = b_ver db /\
               forall k, exists pre, stack db' k = pre ++ stack db k.
 Proof.
   induction bs as [|[n1 sb1] rest IH]; intros Hnd Hsrc dstc Hwf n db Hg.
   - cbn. exists db. repeat split; auto. intros k. now exists [].
   - cbn in Hnd. inversion Hnd as [|? ? Hni Hnd']. subst.
-    cbn [mig_buckets].
+    cbn [mig_buckets_f].
     destruct (aget n1 dstc) as [db1|] eqn:Hg1.
     2:{ cbn. exists db. repeat split; auto. intros k. now exists []. }
     destruct (is_nil (cur_objs db1)) eqn:En.
     2:{ cbn. exists db. repeat split; auto. intros k. now exists []. }
     assert (Hnil : cur_objs db1 = []) by (destruct (cur_objs db1); [reflexivity|discriminate]).
-    set (dst1 := aset n1 (copy_all sb1 db1) dstc).
+    set (dst1 := aset n1 (copy_all_f f sb1 db1) dstc).
     assert (Hwf1 : forall n' db', In n' (map fst rest) -> aget n' dst1 = Some db' -> tops_ok db').
     { intros n' db' Hin Hg'. unfold dst1 in Hg'. rewrite aget_aset_neq in Hg'.
       - apply (Hwf n'); auto. now right.
@@ -253,11 +261,11 @@ Proof.
     { intros n' sb' Hin. apply (Hsrc n' sb'). now right. }
     destruct (N.eq_dec n n1) as [->|Hd].
     + rewrite Hg1 in Hg. inversion Hg. subst db1.
-      destruct (IH Hnd' Hsrc1 dst1 Hwf1 n1 (copy_all sb1 db)) as [db' [Hr [Hv Hs]]].
+      destruct (IH Hnd' Hsrc1 dst1 Hwf1 n1 (copy_all_f f sb1 db)) as [db' [Hr [Hv Hs]]].
       { unfold dst1. apply aget_aset_eq. }
       exists db'. split; auto. split. { rewrite Hv. apply copy_all_ver. }
       intros k. destruct (Hs k) as [pre1 Hp1].
-      destruct (copy_all_suffix sb1 db k) as [pre2 Hp2].
+      destruct (copy_all_suffix f sb1 db k) as [pre2 Hp2].
       { apply (Hsrc n1 sb1). now left. }
       { intros Hv0. apply cur_objs_nil_stacks; auto. apply (Hwf n1 db); auto. now left. }
       exists (pre1 ++ pre2). rewrite Hp1, Hp2. now rewrite app_assoc.
@@ -269,27 +277,27 @@ Lemma migrate_faithful src dst :
   NoDup (map fst src) ->
   (forall n sb, In (n, sb) src -> NoDup (map fst (b_keys sb))) ->
   (forall n db, aget n dst = Some db -> cur_objs db = []) ->
-  snd (migrate src dst) = MOk /\
+  snd (migrate_f f src dst) = MOk /\
   forall n sb, aget n src = Some sb ->
-    exists db, aget n (fst (migrate src dst)) = Some db /\
-      forall k o, cur sb k = Some o -> cur db k = Some (mig_obj o).
+    exists db, aget n (fst (migrate_f f src dst)) = Some db /\
+      forall k o, cur sb k = Some o -> cur db k = Some (f o).
 Proof.
-  intros Hnd Hk Hempty. unfold migrate. set (dst0 := create_missing dst (missing src dst)).
+  intros Hnd Hk Hempty. unfold migrate_f. set (dst0 := create_missing dst (missing src dst)).
   assert (Hall : forall n sb, In (n, sb) src -> exists db, aget n dst0 = Some db /\ cur_objs db = []).
   { intros n sb Hin. destruct (create_missing_exists src dst n) as [b Hb].
     { apply (in_map fst) in Hin. exact Hin. }
     exists b. split; auto. destruct (create_missing_cases _ _ _ _ Hb) as [Ho| ->]; eauto. }
   destruct (mig_buckets_ok src Hnd dst0 Hall) as [Hok [Hin _]].
   split; auto. intros n sb Hg. apply aget_In in Hg.
-  destruct (Hin n sb Hg) as [db [_ Hr]]. exists (copy_all sb db). split; auto.
+  destruct (Hin n sb Hg) as [db [_ Hr]]. exists (copy_all_f f sb db). split; auto.
   intros k o Hc. apply copy_all_cur; auto. apply (Hk n sb Hg).
 Qed.
 
 Lemma migrate_nonempty src dst n sb db :
   NoDup (map fst src) -> aget n src = Some sb -> aget n dst = Some db -> cur_objs db <> [] ->
-  snd (migrate src dst) = MNotEmpty.
+  snd (migrate_f f src dst) = MNotEmpty.
 Proof.
-  intros Hnd Hs Hd Hne. unfold migrate.
+  intros Hnd Hs Hd Hne. unfold migrate_f.
   apply (mig_buckets_notempty src _ n db); auto.
   - intros n' Hin. apply create_missing_exists; auto.
   - apply (aget_Some_in _ _ _ Hs).
@@ -301,16 +309,18 @@ Lemma migrate_suffix src dst :
   (forall n sb, In (n, sb) src -> NoDup (map fst (b_keys sb))) ->
   (forall n db, aget n dst = Some db -> tops_ok db) ->
   forall n db, aget n dst = Some db ->
-  exists db', aget n (fst (migrate src dst)) = Some db' /\ b_ver db' = b_ver db /\
+  exists db', aget n (fst (migrate_f f src dst)) = Some db' /\ b_ver db' = b_ver db /\
               forall k, exists pre, stack db' k = pre ++ stack db k.
 Proof.
-  intros Hnd Hk Hwf n db Hg. unfold migrate.
+  intros Hnd Hk Hwf n db Hg. unfold migrate_f.
   apply mig_buckets_suffix; auto.
   - intros n' db' _ Hg'. destruct (create_missing_cases _ _ _ _ Hg') as [Ho| ->].
     + apply (Hwf n'); auto.
     + intros _. constructor.
   - apply create_missing_old; auto.
 Qed.
+
+End F2.
 
 (* ---------- Expires ---------- *)
 Lemma exp_norm_fixed e : exp_norm e = e <-> (e = 0 \/ (e - 1) mod 5 = 0).
@@ -337,3 +347,31 @@ Definition one_src (o : obj) : store := [(0, mkB false [(0, [VObj o])])].
 Lemma one_src_result o :
   migrate (one_src o) [] = ([(0, mkB false [(0, [VObj (mig_obj o)])])], MOk).
 Proof. reflexivity. Qed.
+
+(* ---------- storage kinds ---------- *)
+Lemma mig_np_zero s : (mig_np s =? 0) = (s <=? part_size).
+Proof.
+  unfold mig_np. destruct (s <=? part_size) eqn:E; [reflexivity|].
+  apply N.eqb_neq. intros H. apply N.div_small_iff in H; unfold part_size in *; lia.
+Qed.
+Lemma mig_obj_k_fields sk dk o :
+  let o' := mig_obj_k sk dk o in
+  o_body o' = o_body o /\
+  m_cc (o_meta o') = m_cc (o_meta o) /\ m_cd (o_meta o') = m_cd (o_meta o) /\
+  m_ce (o_meta o') = m_ce (o_meta o) /\ m_cl (o_meta o') = m_cl (o_meta o) /\
+  m_wrl (o_meta o') = m_wrl (o_meta o) /\ m_um (o_meta o') = m_um (o_meta o) /\
+  m_exp (o_meta o') = exp_norm (m_exp (o_meta o)) /\
+  o_cls o' = 0 /\
+  o_ct o' = (match dk with
+             | KClient => if body_size (o_body o) <=? part_size then (if o_ct o =? 0 then ct_octet else o_ct o) else o_ct o
+             | KLocal => o_ct o
+             end) /\
+  o_tags o' = (match dk with
+               | KClient => if body_size (o_body o) <=? part_size then [] else o_tags o
+               | KLocal => o_tags o
+               end).
+Proof.
+  unfold mig_obj_k, src_view. destruct dk; cbn [dst_store mig_obj o_np o_body o_ct o_meta o_tags o_cls].
+  - repeat split; reflexivity.
+  - rewrite mig_np_zero. destruct (body_size (o_body o) <=? part_size); cbn; repeat split; reflexivity.
+Qed.
